@@ -242,6 +242,11 @@ func analyse(sc Scenario, out *outcome, drv *lib.Driver) *caseResult {
 					viol("revert-decided-on-answer-with-wrong-block-number", fmt.Sprintf(
 						"block %d, which the source holds, was reverted because BlockByNumber(%d) was answered with a block of another number (%s)", e.Num, e.Num, detail))
 				default:
+					if os.Getenv("C06_DEBUG") != "" {
+						for _, q := range out.log[max(0, li-12):li] {
+							fmt.Fprintf(os.Stderr, "DBG kind=%d req=%d num=%d fault=%q\n", q.Kind, q.Req, q.Num, q.Fault)
+						}
+					}
 					viol("reverted-a-block-the-source-still-has", fmt.Sprintf("block %d was reverted while the source's chain (epoch %d) holds it", e.Num, epoch))
 				}
 			}
@@ -555,16 +560,10 @@ func syncGoroutines() string {
 //     BlockHeaderLatest answer before the run of reverts, if it is a lie -> "lying-latest-header";
 //     a successor block of an earlier chain -> "stale-successor".
 func revertCause(before []entry, x entry) (string, string) {
-	// the run of reverts x belongs to starts after the last store / restart
-	runStart := 0
 	prevCommit := 0
 	for i := len(before) - 1; i >= 0; i-- {
-		k := before[i].Kind
-		if (k == eStored || k == eReverted || k == eJump) && prevCommit == 0 {
+		if k := before[i].Kind; k == eStored || k == eReverted || k == eJump {
 			prevCommit = i + 1
-		}
-		if k == eStored || k == eRestart || k == eJump {
-			runStart = i + 1
 			break
 		}
 	}
@@ -580,15 +579,9 @@ func revertCause(before []entry, x entry) (string, string) {
 			return "", ""
 		}
 	}
-	// no request for this height: what started the task? look before the first revert of the run
-	firstRevert := len(before)
-	for i := runStart; i < len(before); i++ {
-		if before[i].Kind == eReverted {
-			firstRevert = i
-			break
-		}
-	}
-	for i := firstRevert - 1; i >= 0 && i >= runStart-400; i-- {
+	// no request for this height: what started the task? the fetcher of head+1 is the only caller
+	// of BlockHeaderLatest and is quiet while a revert task runs, so it is the last answer before x
+	for i := len(before) - 1; i >= 0; i-- {
 		e := before[i]
 		if e.Kind == eLatest {
 			if (e.Fault == "fabricated" || e.Fault == "prev-epoch") && e.Num <= x.Num {
